@@ -260,8 +260,14 @@ def run(case, ctx):
                         continue
                     if M[(i, n)] is UNKNOWN or M[(j, a)] is UNKNOWN:
                         continue
-                    if not accepts(a, M[(i, n)]) or (mutual and not accepts(n, M[(i, n)])):
-                        continue          # the initial copy made by sync_trait itself would be rejected (raises, by design)
+                    # the initial copies made by sync_trait itself (forward: partner.alias = self.name, only for a NEW
+                    # forward link; then, for a new reverse link, self.name = partner.alias) raise if rejected, by design
+                    fwd_new = (i, n, j, a) not in edges
+                    if fwd_new and not accepts(a, M[(i, n)]):
+                        continue
+                    back_val = M[(i, n)] if fwd_new else M[(j, a)]
+                    if mutual and (j, a, i, n) not in edges and not accepts(n, back_val):
+                        continue
                     objs[i].sync_trait(n, objs[j], a, mutual=mutual)
                     new_edge = (i, n, j, a) not in edges
                     edges.add((i, n, j, a))
